@@ -176,7 +176,7 @@ class Report:
         return 'violation'
 
     def _write_replay(self, key, obj, kind):
-        d = os.path.join(VERIF, 'replays')
+        d = os.path.join(os.environ['VERIF_EVIDENCE_DIR'], 'replays') if os.environ.get('VERIF_EVIDENCE_DIR') else os.path.join(VERIF, 'replays')
         os.makedirs(d, exist_ok=True)
         h = hashlib.sha1(key.encode()).hexdigest()[:10]
         path = os.path.join(d, '%s_%s_%s.json' % (self.prop, kind, h))
@@ -202,17 +202,17 @@ class Report:
         ev = {'property_id': self.prop, 'tier': tier(), 'seed': seed(), 'level': self.level, 'coverage': cov,
               'assumptions': self.assumptions, 'wall_s': round(time.time() - self.t0, 2),
               'violations': len(self.violations), 'known_findings': [k for k, _ in self.known]}
-        d = os.path.join(VERIF, 'evidence')
+        d = os.environ.get('VERIF_EVIDENCE_DIR') or os.path.join(VERIF, 'evidence')   # (seeded-change runs write elsewhere)
         os.makedirs(d, exist_ok=True)
         json.dump(ev, open(os.path.join(d, self.prop + '.json'), 'w'), indent=1, default=str)
         log('%s: obligations=%d discharged=%d known=%d violations=%d inconclusive=%d solver=%.1fs wall=%.1fs' % (
             self.prop, cov['obligations'], cov['discharged'], len(self.known), len(self.violations), len(self.inconclusive),
             cov['solver_s'], time.time() - self.t0))
+        for w in self.inconclusive[:10]:
+            log('INCONCLUSIVE: ' + w)
         if self.violations:
             return 1
         if self.inconclusive:
-            for w in self.inconclusive[:10]:
-                log('INCONCLUSIVE: ' + w)
             return 2
         return 0
 
